@@ -18,7 +18,7 @@ def generate(rng, tier):
     cases = []
     thorough = tier == "thorough"
     specs = specs_pool(rng, 40 if thorough else 10)
-    for k in range(10000 if thorough else 1500):
+    for k in range(10000 * TH if thorough else 1500):
         sp, data, kind, _ = gen_stream(rng, specs, big=(k % 13 == 0), p_valid=0.4, p_mut=0.45, mid=0.3, p_over=0.3)
         cfg = E.cfg_str(maxs=safe_max(rng, kind), cap=rng.choice(["def", "def", "3", "16"]), eof=1)
         cases.append(Case("R %s %s - %s N" % (sp.s(), cfg, data.hex() or "-"), kind))
